@@ -142,6 +142,8 @@ impl<T: Ord> MemoryBoundedQueue<T> {
     ///
     /// Returns `Err(WouldBlock)` if adding would exceed capacity.
     pub fn try_push(&self, item: T, size_bytes: usize) -> Result<(), TryPushError> {
+        #[cfg(ragc_verif_sched)]
+        std::point("q.try_push", size_bytes as i64, 0);
         let mut inner = self.inner.lock().unwrap();
 
         if inner.closed {
@@ -158,6 +160,8 @@ impl<T: Ord> MemoryBoundedQueue<T> {
             size: size_bytes,
         });
         inner.current_size += size_bytes;
+        #[cfg(ragc_verif_sched)]
+        std::qevent("q.admit", size_bytes as i64, inner.current_size as i64);
 
         // Signal that queue is not empty
         self.not_empty.notify_one();
@@ -218,6 +222,8 @@ impl<T: Ord> MemoryBoundedQueue<T> {
     ///
     /// Returns `None` if queue is empty (even if not closed).
     pub fn try_pull(&self) -> Option<T> {
+        #[cfg(ragc_verif_sched)]
+        std::point("q.try_pull", 0, 0);
         let mut inner = self.inner.lock().unwrap();
 
         if inner.items.is_empty() {
@@ -227,6 +233,8 @@ impl<T: Ord> MemoryBoundedQueue<T> {
         // Remove highest-priority item (BinaryHeap::pop returns max element)
         let priority_item = inner.items.pop().unwrap();
         inner.current_size -= priority_item.size;
+        #[cfg(ragc_verif_sched)]
+        std::qevent("q.take", priority_item.size as i64, inner.current_size as i64);
 
         // Signal that queue has space
         self.not_full.notify_one();
